@@ -768,6 +768,11 @@ def krylov(model, sfield, efield, var):
         i = -1  # Mark it as error; returned field is all zero.
         var.exit_message += " (returned field is zero)"
 
+    # Error (l2-norm) of the final field. The value of the last callback is
+    # not it: the solver can finish between two callbacks, and the multigrid
+    # pre-conditioner stores its own errors in the same variable.
+    var.l2 = residual(model, sfield, efield, True)
+
     # Convergence-checks for sslsolver.
     if var.verb == 3:
         pre = 50*" " + "\r"
